@@ -703,7 +703,7 @@ def generate(ctx):
     ctx.assume += [
         "networkx.topological_sort is an oracle: the order it returned is checked by is_topo inside the model (C15_topological), a rejection for a cycle is checked against a cycle witness (C15_cycle_has_no_order)",
         "no auto_transform variables and no user-defined log-prob nodes in the generated graphs (C14 / C02 cover those paths)",
-        "the code variant pinned by the correspondence is strip=true (005a821) and check_first=true (5ebbe54)",
+        "the code variant pinned by the correspondence is strip=true (005a821), check_first=true (5ebbe54) and proxy_fix=true (66a7abc)",
     ]
     return cases
 
